@@ -81,8 +81,12 @@ package creds
 // for the URL, the section and the key that were asked for (lower-cased).
 //@ func (*github.com/git-lfs/git-lfs/v3/config.URLConfig).Get
 //@   assumed
-//@   props C10 C17
+//@   props C10 C17 C11
 //@   noeffect
+// C11: of the values the best-matching URL-scoped key has, the last one wins
+// (they are ordered .lfsconfig first, Git's own configuration last) - whatever
+// it is, an empty value included.
+//@   ensures @checked c != nil && len(typed(lasturlall(0), "[]string")) > 0 ==> result1 && result0 == typed(lasturlall(0), "[]string")[len(typed(lasturlall(0), "[]string")) - 1]
 //@   at call (*config.URLConfig).getAll:1 assert arg0__ == c && arg1__ == str_lower(old(prefix)) && arg2__ == old(rawurl) && arg3__ == str_lower(old(key))
 //@ func NewCredentialHelpers
 //@   assumed
